@@ -796,6 +796,11 @@ func (e *Exec) Roundtrip() (ro *RoundtripObs) {
 			ro.Log = fmt.Sprint("export: ", r)
 		}
 	}()
+	if c.App.StakingKeeper.GetLastTotalPower(c.App.NewContext(true, tmproto.Header{Height: c.App.LastBlockHeight()})).IsZero() {
+		// every validator is jailed or has left (the oracle slashed them, they took their stake back): such a chain has
+		// halted, and InitChain refuses a genesis without a validator set - there is nothing to round-trip
+		return nil
+	}
 	exp, err := c.App.ExportAppStateAndValidators(false, nil, nil)
 	if err != nil {
 		ro.Class = "rejected"
@@ -815,6 +820,9 @@ func (e *Exec) Roundtrip() (ro *RoundtripObs) {
 	spec.InitialHeight = exp.Height
 	c2, pi := NewChain(spec)
 	if pi != nil {
+		if os.Getenv("VERIF_DEBUG") != "" {
+			fmt.Fprintf(os.Stderr, "STAKING-GENESIS %s\n", string(raw["staking"]))
+		}
 		ro.Class = "panic"
 		ro.Log = pi.Msg
 		return ro
